@@ -6,7 +6,7 @@
 //! contents are re-read with pread after every step; a reduced number of histories, kinds 0 and 2 only.
 //! case:  kind(0 anonymous mmap, 1 MockMem, 2 file-backed mmap) mode [starts] [lens] [initial bytes]
 //!        then per op:  opcode addr count [data]   (opcodes 12/13: data = chunk :: source bytes)
-//! obs :  per op:  k(1 Ok, 2 Err, 3 panic, 9 backing file differs from memory) v(count | error class) e1 e2 [data] [all region bytes]
+//! obs :  per op:  k(1 Ok, 2 Err, 3 panic, 9 backing file differs from memory, a trait route and method-call route differ) v(count | error class) e1 e2 [data] [all region bytes]
 use super::c02::{build, err_class, lay_toks, layout_of, small_layout, universe, Built, Mem, TOP};
 use crate::tok::n;
 use crate::{util, Rng, Suite, Tier, Tok};
@@ -132,83 +132,93 @@ fn robj<M: GuestMemory>(m: &M, sz: usize, a: GuestAddress, int: bool) -> Result<
     with_arr!(sz, robj_arr, m, a)
 }
 
-fn step<M: GuestMemory>(m: &M, opc: u64, addr: u64, count: u64, d: &[u8], alt: bool) -> Ob {
-    let a = GuestAddress(addr);
-    match opc {
-        0 => cnt(m.write(d, a), vec![]),
-        1 => {
-            let mut b = d.to_vec();
-            let r = m.read(&mut b, a);
-            cnt(r, b)
-        }
-        2 => unit(m.write_slice(d, a), vec![]),
-        3 => {
-            let mut b = d.to_vec();
-            let r = m.read_slice(&mut b, a);
-            unit(r, b)
-        }
-        4 => unit(wobj(m, d, a, alt), vec![]),
-        5 => match robj(m, count as usize, a, alt) {
-            Ok(v) => ok(0, v),
-            Err(e) => er(&e, vec![]),
-        },
-        6 => unit(
-            match d.len() {
-                1 => m.store(d[0], a, Ordering::SeqCst),
-                2 => m.store(u16::from_ne_bytes(d.try_into().unwrap()), a, Ordering::SeqCst),
-                4 => m.store(u32::from_ne_bytes(d.try_into().unwrap()), a, Ordering::SeqCst),
-                8 => m.store(u64::from_ne_bytes(d.try_into().unwrap()), a, Ordering::SeqCst),
-                _ => panic!("bad atomic size"),
-            },
-            vec![],
-        ),
-        7 => {
-            let r = match count {
-                1 => m.load::<u8>(a, Ordering::SeqCst).map(|v| vec![v]),
-                2 => m.load::<u16>(a, Ordering::SeqCst).map(|v| v.to_ne_bytes().to_vec()),
-                4 => m.load::<u32>(a, Ordering::SeqCst).map(|v| v.to_ne_bytes().to_vec()),
-                8 => m.load::<u64>(a, Ordering::SeqCst).map(|v| v.to_ne_bytes().to_vec()),
-                _ => panic!("bad atomic size"),
-            };
-            match r {
-                Ok(v) => ok(0, v),
-                Err(e) => er(&e, vec![]),
+// The step body is instantiated twice: `step` (generic - a method call can only resolve to the trait method, the route
+// of MockMem and route 1 of the mmap collection) and `step_mmap` (method-call syntax on the concrete GuestMemoryMmap<()>
+// with Bytes / GuestMemory in scope, as a user writes it: an INHERENT method of the same name shadows the trait method).
+// The object forms (wobj / robj) stay generic helpers (trait route) in both.
+macro_rules! def_step {
+    ($name:ident, [$($g:tt)*], $M:ty) => {
+        fn $name<$($g)*>(m: &$M, opc: u64, addr: u64, count: u64, d: &[u8], alt: bool) -> Ob {
+            let a = GuestAddress(addr);
+            match opc {
+                0 => cnt(m.write(d, a), vec![]),
+                1 => {
+                    let mut b = d.to_vec();
+                    let r = m.read(&mut b, a);
+                    cnt(r, b)
+                }
+                2 => unit(m.write_slice(d, a), vec![]),
+                3 => {
+                    let mut b = d.to_vec();
+                    let r = m.read_slice(&mut b, a);
+                    unit(r, b)
+                }
+                4 => unit(wobj(m, d, a, alt), vec![]),
+                5 => match robj(m, count as usize, a, alt) {
+                    Ok(v) => ok(0, v),
+                    Err(e) => er(&e, vec![]),
+                },
+                6 => unit(
+                    match d.len() {
+                        1 => m.store(d[0], a, Ordering::SeqCst),
+                        2 => m.store(u16::from_ne_bytes(d.try_into().unwrap()), a, Ordering::SeqCst),
+                        4 => m.store(u32::from_ne_bytes(d.try_into().unwrap()), a, Ordering::SeqCst),
+                        8 => m.store(u64::from_ne_bytes(d.try_into().unwrap()), a, Ordering::SeqCst),
+                        _ => panic!("bad atomic size"),
+                    },
+                    vec![],
+                ),
+                7 => {
+                    let r = match count {
+                        1 => m.load::<u8>(a, Ordering::SeqCst).map(|v| vec![v]),
+                        2 => m.load::<u16>(a, Ordering::SeqCst).map(|v| v.to_ne_bytes().to_vec()),
+                        4 => m.load::<u32>(a, Ordering::SeqCst).map(|v| v.to_ne_bytes().to_vec()),
+                        8 => m.load::<u64>(a, Ordering::SeqCst).map(|v| v.to_ne_bytes().to_vec()),
+                        _ => panic!("bad atomic size"),
+                    };
+                    match r {
+                        Ok(v) => ok(0, v),
+                        Err(e) => er(&e, vec![]),
+                    }
+                }
+                8 => {
+                    let mut src: &[u8] = d;
+                    let r = m.read_volatile_from(a, &mut src, count as usize);
+                    cnt(r, src.to_vec())
+                }
+                9 => {
+                    let mut src: &[u8] = d;
+                    let r = m.read_exact_volatile_from(a, &mut src, count as usize);
+                    unit(r, src.to_vec())
+                }
+                10 => {
+                    let mut dst: Vec<u8> = d.to_vec();
+                    let r = m.write_volatile_to(a, &mut dst, count as usize);
+                    cnt(r, dst)
+                }
+                11 => {
+                    let mut dst: Vec<u8> = d.to_vec();
+                    let r = m.write_all_volatile_to(a, &mut dst, count as usize);
+                    unit(r, dst)
+                }
+                12 | 13 => {
+                    // data = chunk :: source bytes
+                    let mut src = ChunkedSrc { data: d[1..].to_vec(), pos: 0, chunk: d[0] as usize };
+                    if opc == 12 {
+                        let r = m.read_volatile_from(a, &mut src, count as usize);
+                        cnt(r, src.data[src.pos..].to_vec())
+                    } else {
+                        let r = m.read_exact_volatile_from(a, &mut src, count as usize);
+                        unit(r, src.data[src.pos..].to_vec())
+                    }
+                }
+                _ => panic!("bad op"),
             }
         }
-        8 => {
-            let mut src: &[u8] = d;
-            let r = m.read_volatile_from(a, &mut src, count as usize);
-            cnt(r, src.to_vec())
-        }
-        9 => {
-            let mut src: &[u8] = d;
-            let r = m.read_exact_volatile_from(a, &mut src, count as usize);
-            unit(r, src.to_vec())
-        }
-        10 => {
-            let mut dst: Vec<u8> = d.to_vec();
-            let r = m.write_volatile_to(a, &mut dst, count as usize);
-            cnt(r, dst)
-        }
-        11 => {
-            let mut dst: Vec<u8> = d.to_vec();
-            let r = m.write_all_volatile_to(a, &mut dst, count as usize);
-            unit(r, dst)
-        }
-        12 | 13 => {
-            // data = chunk :: source bytes
-            let mut src = ChunkedSrc { data: d[1..].to_vec(), pos: 0, chunk: d[0] as usize };
-            if opc == 12 {
-                let r = m.read_volatile_from(a, &mut src, count as usize);
-                cnt(r, src.data[src.pos..].to_vec())
-            } else {
-                let r = m.read_exact_volatile_from(a, &mut src, count as usize);
-                unit(r, src.data[src.pos..].to_vec())
-            }
-        }
-        _ => panic!("bad op"),
-    }
+    };
 }
+def_step!(step, [M: GuestMemory], M);
+def_step!(step_mmap, [], vm_memory::GuestMemoryMmap<()>);
 
 fn exec(case: &[Tok]) -> Vec<Tok> {
     let kind = case[0].u();
@@ -223,11 +233,22 @@ fn exec(case: &[Tok]) -> Vec<Tok> {
         let (opc, addr, count, d) = (g[0].u(), g[1].u(), g[2].u(), g[3].bytes());
         // the integer-typed object forms are selected by the parity of the address (no extra token)
         let alt = addr & 1 == 0;
-        let r = util::catch(|| match &b.mem {
-            Mem::Mmap(m, _) => step(m, opc, addr, count, &d, alt),
-            Mem::Mock(m) => step(m, opc, addr, count, &d, alt),
-        });
-        let o = r.unwrap_or(Ob { k: 3, v: 0, e1: 0, e2: 0, data: vec![] });
+        let pan = || Ob { k: 3, v: 0, e1: 0, e2: 0, data: vec![] };
+        let o = match &b.mem {
+            Mem::Mmap(m, _) => {
+                // both routes on the same memory (every step is idempotent: it writes bytes that depend on the case
+                // only); identical answers, or kind 0xa, which neither model nor checker accepts:
+                // a <trait k> <trait v> <concrete k * 2^32 + concrete v (low 32 bits)> [concrete data]
+                let t = util::catch(|| step(m, opc, addr, count, &d, alt)).unwrap_or_else(pan);
+                let c = util::catch(|| step_mmap(m, opc, addr, count, &d, alt)).unwrap_or_else(pan);
+                if (t.k, t.v, t.e1, t.e2, &t.data) != (c.k, c.v, c.e1, c.e2, &c.data) {
+                    Ob { k: 10, v: t.k, e1: t.v, e2: (c.k << 32) | (c.v & 0xffff_ffff), data: c.data }
+                } else {
+                    t
+                }
+            }
+            Mem::Mock(m) => util::catch(|| step(m, opc, addr, count, &d, alt)).unwrap_or_else(pan),
+        };
         let mut o = o;
         let dump = b.dump();
         // file-backed regions: the backing files must hold exactly what the host pointers show
